@@ -532,13 +532,13 @@ func (w *world) enabled(evs []string, results []string) []string {
 		}
 		en = append(en, "mine")
 	case "rst":
-		// restart-centred: a small block menu (empty block, T, box(T,U), U) at two instants inside the
-		// window, and the restart, one level deeper than "lin": what the replay cache holds after it was
+		// restart-centred: a small block menu (empty block, T, box(T,U), U) at three instants (first second, last second
+		// but one and last second of the window: the edge of the 30-minute reload horizon), and the restart, one level deeper than "lin": what the replay cache holds after it was
 		// reloaded from disk (blocks without transactions, boxes) decides whether T can run again
 		head := w.o.BC.CurrentBlock()
 		hn := w.nameOf(head)
 		for i, inst := range instants {
-			if uint32(int(t0)+inst) < head.Time() || (inst != 0 && inst != 1799) {
+			if uint32(int(t0)+inst) < head.Time() || (inst != 0 && inst != 1799 && inst != 1800) {
 				continue
 			}
 			for _, l := range lists["rst"] {
